@@ -169,17 +169,17 @@ const NEXTS: [u64; 7] = [0, 1, 8, 16, 32, 4096, 0xffff_ffff];
 const CNTS: [u64; 6] = [0, 1, 3, 4, 0xffff, u64::MAX];
 impl Space for VerLists {
     fn name(&self) -> String {
-        "VerNeed/VerDef iterators + aux iterators over 3-record lists: next of every record in {0,1,8,16,32,4096,2^32-1}^3 x aux-next in the same set x declared count in {0,1,3,4,0xffff,u64::MAX}".into()
+        "VerNeed/VerDef iterators + aux iterators over 3-record lists: next of every record in {0,1,8,16,32,4096,2^32-1}^3 x aux-next in the same set or landing 1/15/16 bytes before the section end x declared count in {0,1,3,4,0xffff,u64::MAX}".into()
     }
     fn size(&self) -> u64 {
-        7 * 7 * 7 * 7 * 6 * 2
+        7 * 7 * 7 * 10 * 6 * 2
     }
     fn describe(&self, idx: u64) -> Value {
-        let d = unmix(idx, &[7, 7, 7, 7, 6, 2]);
-        json!({"kind": if d[5] == 0 {"verneed"} else {"verdef"}, "next": [NEXTS[d[0] as usize], NEXTS[d[1] as usize], NEXTS[d[2] as usize]], "aux_next": NEXTS[d[3] as usize], "declared_count": CNTS[d[4] as usize]})
+        let d = unmix(idx, &[7, 7, 7, 10, 6, 2]);
+        json!({"kind": if d[5] == 0 {"verneed"} else {"verdef"}, "next": [NEXTS[d[0] as usize], NEXTS[d[1] as usize], NEXTS[d[2] as usize]], "aux_next": if d[3] < 7 { json!(NEXTS[d[3] as usize]) } else { json!(format!("lands {} byte(s) before the end of the section", [1, 15, 16][d[3] as usize - 7])) }, "declared_count": CNTS[d[4] as usize]})
     }
     fn run(&self, idx: u64, out: &mut Outcome) {
-        let d = unmix(idx, &[7, 7, 7, 7, 6, 2]);
+        let d = unmix(idx, &[7, 7, 7, 10, 6, 2]);
         let need = d[5] == 0;
         let count = CNTS[d[4] as usize];
         let enc = ENCS[(idx % 4) as usize];
@@ -195,7 +195,8 @@ impl Space for VerLists {
             let vals: Vec<u64> = if need { vec![1, cnt, 1, hs as u64, next] } else { vec![1, 0, 5 + k as u64, cnt, 7, hs as u64, next] };
             let rec = encode(if need { Kind::Verneed } else { Kind::Verdef }, enc, &vals, 0);
             b[off..off + hs].copy_from_slice(&rec);
-            let an = NEXTS[d[3] as usize];
+            // fixed alphabet, or a link that lands 1 / 15 / 16 bytes before the end of the section
+            let an = if d[3] < 7 { NEXTS[d[3] as usize] } else { (total - (off + hs) - [1usize, 15, 16][d[3] as usize - 7]) as u64 };
             let aux = if need { encode(Kind::Vernaux, enc, &[1, 0, 9, 1, an], 0) } else { encode(Kind::Verdaux, enc, &[1, an], 0) };
             let alen = aux.len().min(32 - hs);
             b[off + hs..off + hs + alen].copy_from_slice(&aux[..alen]);
